@@ -37,6 +37,11 @@ type kosEv struct {
 var c15Pair *iknpPair
 var c15PairUses int
 
+// outputs of earlier accepted batches on the current pair (they are the caller's and must stay valid), and what was
+// found when a later batch changed them
+var c15Earlier []func() string
+var c15Changed string
+
 // c15Batch runs one malicious-mode batch with an optional flip.  The pair is reused for many batches: the
 // sender reads every chunk before it checks, so the PRG streams stay in lock step also after an abort.
 func c15Batch(rng *rand.Rand, n int, flags []bool, where string, col, row int, respIdx, respBit int) (*iknpPair, bool, bool, error) {
@@ -50,6 +55,7 @@ func c15Batch(rng *rand.Rand, n int, flags []bool, where string, col, row int, r
 			return nil, false, false, err
 		}
 		c15Pair, c15PairUses = np, 0
+		c15Earlier = nil
 	}
 	c15PairUses++
 	p := c15Pair
@@ -112,6 +118,29 @@ func c15Batch(rng *rand.Rand, n int, flags []bool, where string, col, row int, r
 			ok = false
 		}
 	}
+	for _, f := range c15Earlier {
+		if msg := f(); msg != "" && c15Changed == "" {
+			c15Changed = msg
+		}
+	}
+	if ok {
+		delta := p.delta
+		c15Earlier = append(c15Earlier, func() string {
+			for j := 0; j < n; j++ {
+				want := sent[j]
+				if flags[j] {
+					want.Xor(delta)
+				}
+				if !recv[j].Equal(want) {
+					return fmt.Sprintf("a batch of %d accepted earlier on the same sender: index %d no longer satisfies the correlation", n, j)
+				}
+			}
+			return ""
+		})
+		if len(c15Earlier) > 6 {
+			c15Earlier = c15Earlier[1:]
+		}
+	}
 	return p, true, ok, nil
 }
 
@@ -137,6 +166,10 @@ func c15Main(args []string) error {
 	idx := 0
 	nviol := 0
 	emit := func(res *Result, ev kosEv) {
+		if c15Changed != "" {
+			res.viol("outputs-changed-by-later-batch", "%s (after a later Send on that sender)", c15Changed)
+			c15Changed = ""
+		}
 		tr.put(ev)
 		if len(res.Viol) > 0 {
 			nviol++
